@@ -11,7 +11,8 @@ run_one() {
   local d="$V/seeded/$1"
   [ -f "$d/patch.diff" ] || { echo "run_seeded: $d/patch.diff missing" >&2; return 2; }
   local checks; checks="$(python3 -c "import json,sys; m=json.load(open('$d/meta.json')); print(' '.join(m.get('checks') or [m['property']]))")"
-  if ! git -C /repo apply "$d/patch.diff"; then echo "$1: patch does not apply" ; git -C /repo checkout -- .; return 2; fi
+  if ! git -C /repo apply "$d/patch.diff" 2>/dev/null && ! git -C /repo apply -3 "$d/patch.diff"; then echo "$1: patch does not apply" ; git -C /repo reset -q; git -C /repo checkout -- .; return 2; fi
+  git -C /repo reset -q   # a 3-way apply stages the change; keep the index at HEAD so that checkout restores
   local caught=""
   for c in $checks; do
     out="$("$V/check" "$c" --tier "$TIER" 2>&1)"; rc=$?
